@@ -117,7 +117,7 @@ def run(A, R: Report, thorough: bool):
     R.explanation = ('Sibling cross-check: for every concrete data class and file-cache class the serialiser used by the writer and the parser used by the reader must be a pair of '
                      'one codec, on the same path term, with agreeing text/binary mode and encoding; effect summaries show every reader is write-free; AST rules for unset '
                      'tests and item ordering. Value-level fidelity (dtypes, unicode, NaN, 64-bit) lives inside third-party codecs and is NOT decided.')
-    R.trusted = TRUSTED_BASE + ['codec pair table of tcverif/rules/c06.py']
+    R.trusted = TRUSTED_BASE + ['codec pair table of tcverif/rules/c06.py', 'a generator is exhausted by the first full iteration and loses every item taken from it by next()']
     E = effects_of(A)
     classes = persistent_data_classes(A)
     R.rule('R06.1', 'writer and reader of each data / cache class use the same codec, path and mode', floor=12)
@@ -296,6 +296,16 @@ def run(A, R: Report, thorough: bool):
     r_list = any(isinstance(n, ast.Call) and src(n.func) == 'list' for n in A.typer.own_nodes(ld))
     R.check(w_list and r_list, 'R06.4', 'GeneratedData: list on both sides', key_of('gen-list', w_list, r_list), 'computing chain and loading chain both hold a list',
             'the computing chain and a loading chain would hold different sequence types (generator vs list)', where=where(ld))
+
+    # ---- R06.9 a generated sequence is written from a single pass
+    from .common import consumed_more_than_once
+    R.rule('R06.9', 'the writer of generated sequences goes over the items it is given exactly once (the lazy data class hands it a one-shot generator)', floor=1)
+    fw = next((f_ for f_ in A.prog.functions.values() if f_.name == 'write_jsons' and f_.cls is None and f_.parent is None), None)
+    R.require(fw is not None and fw.params, 'anchor: utils.io.write_jsons missing')
+    twice = consumed_more_than_once(A, fw, fw.params[0])
+    R.check(twice is None, 'R06.9', f'write_jsons: `{fw.params[0]}`', key_of('consumed-twice', [src(x)[:40] if not isinstance(x, ast.comprehension) else 'comprehension' for x in (twice or ())]), 'one pass over the items',
+            f'`{src(twice[0])[:60] if twice else ""}` takes items from `{fw.params[0]}` before `{src(twice[1])[:60] if twice else ""}` writes them: for a generator (GeneratedDataLazy) the items taken first are missing from the stored file, '
+            'so the stored sequence is shorter than the one run produced', where=where(fw, twice[0]) if twice else where(fw))
 
 
 def _leaves(t):
